@@ -195,11 +195,14 @@ def gen_family(rng, force=(), forbid=(), n_masters=None, max_glyphs=14, p_sparse
             uni = [0xC0 + len(comps)] if rng.random() < 0.6 else []
             roster.append((name, uni, "composite"))
             comps.append((name, b, m))
+    if "mixed" in on:
+        roster.append((base_names[0] + ".mixed", [], "mixed"))
     if "nested" in on and comps:
         for i, (cname, b, m) in enumerate(comps[: rng.randint(1, 2)]):
             roster.append((cname + ".nest", [], "nested:" + cname))
-    if "mixed" in on:
-        roster.append((base_names[0] + ".mixed", [], "mixed"))
+        if "mixed" in on and rng.random() < 0.5:
+            # a composite of a *mixed* glyph (contours + components)
+            roster.append((base_names[0] + ".mixed.nest", [], "nested:" + base_names[0] + ".mixed"))
     if "notdef" in on:
         roster.append((".notdef", [], "notdef"))
     if "dottedcircle" in on and rng.random() < 0.5:
